@@ -69,11 +69,7 @@ func writeConfigFile(home string, settings []KV) error {
 	}
 	var sb strings.Builder
 	root.render(&sb, 0)
-	dir := filepath.Join(home, config.AppConfigDir)
-	if err := os.MkdirAll(dir, 0o750); err != nil {
-		return err
-	}
-	return os.WriteFile(filepath.Join(dir, config.ConfigName), []byte(sb.String()), 0o600)
+	return os.WriteFile(filepath.Join(home, config.AppConfigDir, config.ConfigName), []byte(sb.String()), 0o600)
 }
 
 type loadResult struct {
@@ -189,16 +185,31 @@ func kindZero(l *leaf) any {
 	return v.Interface()
 }
 
+// freshHome returns an empty home directory below tmp (one directory is reused per check).
+func freshHome(tmp string) string {
+	home := filepath.Join(tmp, "home")
+	cf := filepath.Join(home, config.AppConfigDir, config.ConfigName)
+	if err := os.Remove(cf); err != nil && !os.IsNotExist(err) {
+		panic(err)
+	}
+	if _, err := os.Stat(filepath.Dir(cf)); err != nil {
+		if err := os.MkdirAll(filepath.Dir(cf), 0o750); err != nil {
+			panic(err)
+		}
+	}
+	return home
+}
+
 func runPrecedence(sc Scenario, tmp string) world.Verdict {
+	resetDefaults()
+	return runPrecedenceNoReset(sc, tmp)
+}
+
+func runPrecedenceNoReset(sc Scenario, tmp string) world.Verdict {
 	if !sc.validate() {
 		return world.Verdict{Excluded: true}
 	}
-	resetDefaults()
-	home, err := os.MkdirTemp(tmp, "home")
-	if err != nil {
-		panic(err)
-	}
-	defer os.RemoveAll(home)
+	home := freshHome(tmp)
 	if len(sc.File) > 0 {
 		if err := writeConfigFile(home, sc.File); err != nil {
 			panic(err)
@@ -419,43 +430,64 @@ func (o option) name() string {
 	return "--" + o.f.Name
 }
 
-func genStyle(t *rapid.T) string { return rapid.SampledFrom([]string{"dq", "dq", "sq", "plain"}).Draw(t, "style") }
+func genStyle(t *rapid.T) string {
+	return rapid.SampledFrom([]string{"dq", "dq", "sq", "plain"}).Draw(t, "style")
+}
+
+type setting struct {
+	File *KV
+	Flag *KV
+}
+
+func genSetting(t *rapid.T) setting {
+	o := rapid.SampledFrom(options()).Draw(t, "option")
+	kind, bits := o.kindBits()
+	var presences []string
+	if o.l != nil {
+		presences = append(presences, "file")
+	}
+	if o.f != nil {
+		presences = append(presences, "flag")
+	}
+	if o.l != nil && o.f != nil {
+		presences = append(presences, "both", "both")
+	}
+	var st setting
+	switch rapid.SampledFrom(presences).Draw(t, "presence") {
+	case "file":
+		st.File = &KV{Key: o.l.Path, Val: genValue(t, kind, bits, "fileval"), Style: genStyle(t)}
+	case "flag":
+		st.Flag = &KV{Key: o.f.Name, Val: genValue(t, kind, bits, "flagval")}
+	case "both":
+		fv := genValue(t, kind, bits, "fileval")
+		gv := fv
+		if rapid.IntRange(0, 5).Draw(t, "same") != 0 {
+			gv = genValue(t, kind, bits, "flagval")
+		}
+		st.File = &KV{Key: o.l.Path, Val: fv, Style: genStyle(t)}
+		st.Flag = &KV{Key: o.f.Name, Val: gv}
+	}
+	return st
+}
 
 func genScenario(t *rapid.T) Scenario {
-	opts := options()
 	sc := Scenario{Via: rapid.SampledFrom([]string{"load", "load", "load", "viper"}).Draw(t, "via")}
-	n := rapid.IntRange(0, 4).Draw(t, "nsettings")
 	used := map[string]bool{}
-	for i := 0; i < n; i++ {
-		o := rapid.SampledFrom(opts).Draw(t, "option")
-		if used[o.name()] {
+	min := 1
+	if rapid.IntRange(0, 19).Draw(t, "empty") == 0 {
+		min = 0
+	}
+	for _, st := range rapid.SliceOfN(rapid.Custom(genSetting), min, 5).Draw(t, "settings") {
+		if (st.File != nil && used["f:"+st.File.Key]) || (st.Flag != nil && used["g:"+st.Flag.Key]) {
 			continue
 		}
-		used[o.name()] = true
-		kind, bits := o.kindBits()
-		var presences []string
-		if o.l != nil {
-			presences = append(presences, "file")
+		if st.File != nil {
+			used["f:"+st.File.Key] = true
+			sc.File = append(sc.File, *st.File)
 		}
-		if o.f != nil {
-			presences = append(presences, "flag")
-		}
-		if o.l != nil && o.f != nil {
-			presences = append(presences, "both", "both")
-		}
-		switch rapid.SampledFrom(presences).Draw(t, "presence") {
-		case "file":
-			sc.File = append(sc.File, KV{Key: o.l.Path, Val: genValue(t, kind, bits, "fileval"), Style: genStyle(t)})
-		case "flag":
-			sc.Flags = append(sc.Flags, KV{Key: o.f.Name, Val: genValue(t, kind, bits, "flagval")})
-		case "both":
-			fv := genValue(t, kind, bits, "fileval")
-			gv := fv
-			if rapid.IntRange(0, 5).Draw(t, "same") != 0 {
-				gv = genValue(t, kind, bits, "flagval")
-			}
-			sc.File = append(sc.File, KV{Key: o.l.Path, Val: fv, Style: genStyle(t)})
-			sc.Flags = append(sc.Flags, KV{Key: o.f.Name, Val: gv})
+		if st.Flag != nil {
+			used["g:"+st.Flag.Key] = true
+			sc.Flags = append(sc.Flags, *st.Flag)
 		}
 	}
 	if rapid.IntRange(0, 5).Draw(t, "pass") == 0 {
@@ -469,7 +501,7 @@ func genScenario(t *rapid.T) Scenario {
 func TestC18Precedence(t *testing.T) {
 	requireSetup(t)
 	tmp := t.TempDir()
-	world.Run(t, "C18", "precedence", world.Scale(1500, 12000), genScenario, func(sc Scenario) world.Verdict { return runPrecedence(sc, tmp) })
+	world.Run(t, "C18", "precedence", world.Scale(500, 12000), genScenario, func(sc Scenario) world.Verdict { return runPrecedence(sc, tmp) })
 }
 
 // TestC18EveryFieldFromFile: every field x the value table, from a file holding only that key.
@@ -477,11 +509,11 @@ func TestC18EveryFieldFromFile(t *testing.T) {
 	requireSetup(t)
 	tmp := t.TempDir()
 	var scs []Scenario
-	for _, o := range options() {
+	for oi, o := range options() {
 		if o.l == nil {
 			continue
 		}
-		for i, v := range tableValues(o.l.Kind, o.l.Bits) {
+		for i, v := range tableValues(oi, o.l.Kind, o.l.Bits) {
 			scs = append(scs, Scenario{Via: "load", File: []KV{{Key: o.l.Path, Val: v, Style: []string{"dq", "plain", "sq"}[i%3]}}})
 		}
 	}
@@ -493,12 +525,12 @@ func TestC18EveryFlagAlone(t *testing.T) {
 	requireSetup(t)
 	tmp := t.TempDir()
 	var scs []Scenario
-	for _, o := range options() {
+	for oi, o := range options() {
 		if o.f == nil {
 			continue
 		}
 		kind, bits := o.kindBits()
-		for i, v := range tableValues(kind, bits) {
+		for i, v := range tableValues(oi, kind, bits) {
 			via := "load"
 			if i%5 == 4 {
 				via = "viper"
@@ -515,12 +547,12 @@ func TestC18EveryFlagOverFile(t *testing.T) {
 	requireSetup(t)
 	tmp := t.TempDir()
 	var scs []Scenario
-	for _, o := range options() {
+	for oi, o := range options() {
 		if o.f == nil || o.l == nil {
 			continue
 		}
 		kind, bits := o.kindBits()
-		vals := tableValues(kind, bits)
+		vals := tableValues(oi, kind, bits)
 		for i, v := range vals {
 			via := "load"
 			if i%5 == 4 {
@@ -555,11 +587,7 @@ func runSaveLoad(sc SaveScenario, tmp string) world.Verdict {
 		return world.Verdict{Excluded: true}
 	}
 	resetDefaults()
-	home, err := os.MkdirTemp(tmp, "home")
-	if err != nil {
-		panic(err)
-	}
-	defer os.RemoveAll(home)
+	home := freshHome(tmp)
 	written := cloneConfig(pristine)
 	written.RootDir = home
 	nt := false
@@ -616,6 +644,15 @@ func runSaveLoad(sc SaveScenario, tmp string) world.Verdict {
 		if sameValue(d.l.Kind, d.got, textOf(def, d.l.Kind)) {
 			sig = "C18/roundtrip-field-lost:" + d.l.Path
 		}
+		// One root cause gets one signature: SaveAsYaml leaves the scalar style of strings to
+		// the YAML writer, which picks a plain or block scalar that the reader used by Load
+		// resolves to something else (or cannot parse, which silently loses the whole file).
+		for _, kv := range sc.Values {
+			if l := leafByPath[kv.Key]; l.Kind == kString && kv.Val != "" && (l == d.l || len(diffs) > 1) &&
+				!strings.Contains(string(file), ": "+strconv.Quote(kv.Val)+"\n") {
+				sig = "C18/save-load/string-scalar-style"
+			}
+		}
 		return world.Fail(sig, "%s: %s was written as %s and loaded back as %s\nfile:\n%s", desc, d.l.GoName, q(d.want), q(d.got), file)
 	}
 	if got.RootDir != home {
@@ -635,13 +672,16 @@ func runSaveLoad(sc SaveScenario, tmp string) world.Verdict {
 
 func genSaveScenario(t *rapid.T) SaveScenario {
 	sc := SaveScenario{Via: rapid.SampledFrom([]string{"load", "load", "viper"}).Draw(t, "via")}
-	density := rapid.SampledFrom([]int{0, 1, 1, 3, 8, 10}).Draw(t, "density")
+	var cand []*leaf
 	for i := range leaves {
-		l := &leaves[i]
-		if exemptFields[l.GoName] {
-			continue
+		if !exemptFields[leaves[i].GoName] {
+			cand = append(cand, &leaves[i])
 		}
-		if rapid.IntRange(0, 9).Draw(t, "set?") < density {
+	}
+	// a field is set when its draw reaches the threshold: every draw shrinks towards "unset"
+	thr := rapid.SampledFrom([]int{96, 96, 85, 85, 60, 10, 3}).Draw(t, "threshold")
+	for _, l := range cand {
+		if rapid.IntRange(0, 99).Draw(t, "set") >= thr {
 			sc.Values = append(sc.Values, KV{Key: l.Path, Val: genValue(t, l.Kind, l.Bits, "val")})
 		}
 	}
@@ -652,7 +692,7 @@ func genSaveScenario(t *rapid.T) SaveScenario {
 func TestC18SaveLoad(t *testing.T) {
 	requireSetup(t)
 	tmp := t.TempDir()
-	world.Run(t, "C18", "save-load", world.Scale(600, 5000), genSaveScenario, func(sc SaveScenario) world.Verdict { return runSaveLoad(sc, tmp) })
+	world.Run(t, "C18", "save-load", world.Scale(300, 5000), genSaveScenario, func(sc SaveScenario) world.Verdict { return runSaveLoad(sc, tmp) })
 }
 
 // TestC18SaveLoadEveryField: every field x the value table, one non-default field per file.
@@ -660,11 +700,11 @@ func TestC18SaveLoadEveryField(t *testing.T) {
 	requireSetup(t)
 	tmp := t.TempDir()
 	var scs []SaveScenario
-	for _, o := range options() {
+	for oi, o := range options() {
 		if o.l == nil {
 			continue
 		}
-		for _, v := range tableValues(o.l.Kind, o.l.Bits) {
+		for _, v := range tableValues(oi, o.l.Kind, o.l.Bits) {
 			scs = append(scs, SaveScenario{Via: "load", Values: []KV{{Key: o.l.Path, Val: v}}})
 		}
 	}
@@ -684,4 +724,55 @@ func TestC18Inventory(t *testing.T) {
 	}
 	sort.Strings(noFlag)
 	t.Logf("C18 inventory: %d fields, %d flags; fields without a flag (allowed): %v", len(leaves), len(flags), noFlag)
+}
+
+// ---------------------------------------------------------------------------------------------
+// two loads in one process: the second obeys the same precedence as if it were the first
+
+// TwiceScenario loads First and then Second (different files, different command lines) in the
+// same process without restoring the package-level defaults in between.
+type TwiceScenario struct {
+	First  Scenario `json:"first"`
+	Second Scenario `json:"second"`
+}
+
+func runTwice(sc TwiceScenario, tmp string) world.Verdict {
+	resetDefaults()
+	v1 := runPrecedenceNoReset(sc.First, tmp)
+	if v1.Excluded || v1.Violation != "" {
+		return world.Verdict{Excluded: true} // reported by the single-load checks
+	}
+	v2 := runPrecedenceNoReset(sc.Second, tmp)
+	if v2.Excluded {
+		return v2
+	}
+	if v2.Violation != "" {
+		alone := runPrecedence(sc.Second, tmp)
+		if alone.Violation != "" {
+			return world.Verdict{Excluded: true} // fails on its own: reported by the single-load checks
+		}
+		sig := "C18/earlier-load-leaks"
+		if i := strings.LastIndex(v2.Signature, ":"); i >= 0 {
+			section, _, _ := strings.Cut(v2.Signature[i+1:], ".")
+			sig += ":" + section
+		}
+		return world.Fail(sig, "after loading %s in the same process, a second load deviates (alone it is correct): %s", describe(sc.First), v2.Violation)
+	}
+	nt := len(sc.First.File)+len(sc.First.Flags) > 0
+	return world.OK(nt, "second:"+map[bool]string{true: "defaults-only", false: "has-settings"}[len(sc.Second.File)+len(sc.Second.Flags) == 0])
+}
+
+func TestC18LoadTwice(t *testing.T) {
+	requireSetup(t)
+	tmp := t.TempDir()
+	gen := func(t *rapid.T) TwiceScenario {
+		sc := TwiceScenario{First: genScenario(t)}
+		if rapid.Bool().Draw(t, "second-empty") {
+			sc.Second = Scenario{Via: rapid.SampledFrom([]string{"load", "viper"}).Draw(t, "via2")}
+		} else {
+			sc.Second = genScenario(t)
+		}
+		return sc
+	}
+	world.Run(t, "C18", "load-twice", world.Scale(300, 3000), gen, func(sc TwiceScenario) world.Verdict { return runTwice(sc, tmp) })
 }
